@@ -14,6 +14,9 @@ func (id StreamID) String() string {
 }
 
 func parseU64(s string) (uint64, bool) {
+	if len(s) > 1 && s[0] == '+' { // strtoull and ParseInt both take a sign; the spelling is not canonical
+		s = s[1:]
+	}
 	if s == "" {
 		return 0, false
 	}
@@ -56,6 +59,9 @@ func entryReply(e StreamEntry) Reply {
 	fs := make([]Reply, len(e.Fields))
 	for i, f := range e.Fields {
 		fs[i] = Str(f)
+	}
+	if e.Reported != "" {
+		return Arr(SStr(e.Reported), Arr(fs...))
 	}
 	return Arr(SStr(e.ID.String()), Arr(fs...))
 }
@@ -141,6 +147,7 @@ func init() {
 			return Unspecified("approximate (~) trimming may remove fewer entries")
 		}
 		auto, autoSeq := false, false
+		nonPlain := false
 		var id StreamID
 		if idArg == "*" {
 			auto = true
@@ -159,9 +166,7 @@ func init() {
 			if !seqGiven {
 				return Unspecified("XADD with a millisecond-only ID")
 			}
-			if !plain {
-				return Unspecified("non-canonical ID spelling")
-			}
+			nonPlain = !plain
 			if pid.Ms > math.MaxInt64 || pid.Seq > math.MaxInt64 {
 				return Unspecified("ID component beyond int64")
 			}
@@ -182,13 +187,14 @@ func init() {
 		for j, f := range fields {
 			fb[j] = []byte(f)
 		}
+		reported := ""
 		commit := func(id StreamID) {
 			v := db.get(key)
 			if v == nil {
 				v = &Val{Kind: KStream}
 				db.Keys[key] = v
 			}
-			v.Stream = append(v.Stream, StreamEntry{ID: id, Fields: fb})
+			v.Stream = append(v.Stream, StreamEntry{ID: id, Fields: fb, Reported: reported})
 			v.LastID = id
 			switch trim {
 			case "maxlen":
@@ -260,6 +266,32 @@ func init() {
 		}
 		if !last.Less(id) {
 			return Err()
+		}
+		if nonPlain {
+			// a spelling like 007-01 or +7-1: an implementation may refuse it; if it takes it, the ID it
+			// reports must denote the same ID, and XRANGE must list the entry under what was reported
+			rep := Pred(func(act respx.Value) error {
+				if act.Kind == respx.Error {
+					return nil
+				}
+				if !isStr(act) {
+					return fmt.Errorf("expected the new ID as a string, or an error")
+				}
+				got, ok, seqGiven, _ := ParseStreamID(string(act.Str), 0)
+				if !ok || !seqGiven || got != id {
+					return fmt.Errorf("reported ID %q does not denote the requested ID %s", act.Str, id)
+				}
+				return nil
+			})
+			rep.Then = func(act respx.Value) {
+				if act.Kind != respx.Error {
+					if string(act.Str) != id.String() {
+						reported = string(act.Str)
+					}
+					commit(id)
+				}
+			}
+			return rep
 		}
 		commit(id)
 		return SStr(id.String())
